@@ -354,6 +354,33 @@ struct NavRun {
         res.steps += q.steps;
     }
 
+    // The documented way to declare a parser: the BINSON_PARSER_DEF* macros of the public header (automatic and static storage,
+    // default and explicit depth). A valid document that fits the declared depth must verify on each of them.
+    void macro_declared_parsers() {
+        int need = std::max(1, need_depth(root, plan.root != 0));
+        Block b = block_alloc(plan.doc.size(), 0);
+        if (!plan.doc.empty()) memcpy(b.p, plan.doc.data(), plan.doc.size());
+        auto use = [&](binson_parser *q, int depth, const char *how) {
+            if (need > depth) return;
+            bool i = false, v = false;
+            g_in_library++;
+            i = plan.root ? binson_parser_init_array(q, b.p, b.n) : binson_parser_init_object(q, b.p, b.n);
+            if (i) v = binson_parser_verify(q);
+            g_in_library--;
+            bump(res.cnt, std::string("probe.macro_declared_parser.") + how);
+            if (!i || !v) fail("macro_parser", fmt("a parser declared with %s rejects a valid document that needs %d levels (init=%d verify=%d)", how, need, i, v));
+        };
+        { BINSON_PARSER_DEF(q1); use(&q1, 10, "BINSON_PARSER_DEF"); }
+        { BINSON_PARSER_DEF_DEPTH(q2, 40); use(&q2, 40, "BINSON_PARSER_DEF_DEPTH(40)"); }
+        // the static variants declare ONE parser per expansion site: an application must not use such a parser from two threads,
+        // so they are left out when this history is one of several tasks under the interleaving scheduler
+        if (!g_yield_hook) {
+            { BINSON_PARSER_DEF_STATIC(q3); use(&q3, 10, "BINSON_PARSER_DEF_STATIC"); }
+            { BINSON_PARSER_DEF_DEPTH_STATIC(q4, 24); use(&q4, 24, "BINSON_PARSER_DEF_DEPTH_STATIC(24)"); }
+        }
+        block_free(b);
+    }
+
     void run() {
         P = plan.prop.empty() ? "C06" : plan.prop;
         sink.own = ctx.prop.empty() ? "" : ctx.prop; sink.cnt = &res.cnt;
@@ -398,6 +425,7 @@ struct NavRun {
         if (!o.ret) fail("init", fmt("init rejected a valid document (%s)", err_name(o.err)));
         for (size_t i = 0; i < plan.ops.size() && !sink.failed() && !ps.dead; i++) step(plan.ops[i]);
         ps.end_checks();
+        if (!sink.failed() && (plan.seed & 7) == 0) macro_declared_parsers();
         block_free(xw_blk); block_free(xw_dest);
         res.clause = sink.clause; res.detail = sink.detail;
         res.trace_hash = tr.h; res.steps += ps.steps; res.calls = ps.calls;
@@ -488,9 +516,23 @@ Plan nav_generate(uint64_t base, const std::string &prop, uint64_t index, int ti
         root.t = p.root ? V_ARR : V_OBJ;
         int od = 1 + (int)rd.below(tier ? 250 : 30), ad = (int)rd.below(tier ? 200 : 30);
         if (rd.chance(1, 3)) { static const int T[] = {7, 8, 9, 15, 16, 17, 31, 32, 33, 63, 64, 65, 127, 128, 129}; if (rd.chance(1, 2)) od = T[rd.below(15)]; else ad = T[rd.below(15)]; }
-        deep_shape(rd, root, p.root != 0, od, ad);
+        if (rd.chance(1, 4)) {
+            // arrays nested directly in arrays up to the format's limit of 255 per object level, an object among the innermost elements
+            static const int N[] = {2, 100, 127, 128, 129, 253, 254, 255};
+            int n = N[rd.below(8)];
+            Node *cur = &root; int have = p.root ? 1 : 0;
+            if (!p.root) { Node c; c.t = V_ARR; c.name = Bytes{'m'}; root.kids.push_back(c); cur = &root.kids.back(); have = 1; }
+            while (have < n) { Node c; c.t = V_ARR; cur->kids.push_back(c); cur = &cur->kids.back(); have++; }
+            { Node o; o.t = V_OBJ; if (rd.chance(1, 2)) { Node v; v.t = V_INT; v.i = 7; v.name = Bytes{'k'}; o.kids.push_back(v); } cur->kids.push_back(o); }
+            { Node s; s.t = V_INT; s.i = n; cur->kids.push_back(s); }
+            if (rd.chance(1, 2)) { Node o2; o2.t = V_OBJ; cur->kids.push_back(o2); }
+            p.faults.push_back(fmt("shape:array_chain=%d", n));
+            deep_levels = n + 1;
+        } else {
+            deep_shape(rd, root, p.root != 0, od, ad);
+            deep_levels = od + ad;
+        }
         p.faults.push_back("shape:deep");
-        deep_levels = od + ad;
     } else root = gen_tree(rd, k, p.root != 0);
     encode(root, p.doc);
     int need = std::max(1, need_depth(root, p.root != 0));
